@@ -575,9 +575,15 @@ func c07Judge(c *C, set *pongo2.TemplateSet, ctx pongo2.Context, n *xnode, layou
 				c.Fail("compile-error", D{"tree": c07Full(n), "source": src, "error": err.Error()})
 				return false
 			}
+			// the compiled expression is evaluated twice: the value of an expression does not depend on earlier evaluations
+			first, ferr := tpl.Execute(ctx)
 			before := atomic.LoadInt64(&c07Calls)
 			out, xerr := tpl.Execute(ctx)
 			ncalls := int(atomic.LoadInt64(&c07Calls) - before)
+			if first != out || (ferr == nil) != (xerr == nil) {
+				c.Fail("second-evaluation-differs", D{"tree": c07Full(n), "source": src, "first_output": first, "second_output": out, "first_error": errStr(ferr), "second_error": errStr(xerr)})
+				return false
+			}
 			d := D{"tree": c07Full(n), "source": src, "output": out, "error": errStr(xerr)}
 			if exp.status == stErr {
 				if xerr == nil {
